@@ -246,6 +246,7 @@ func (p *Program) runInits(verbose bool) error {
 	ex.cfg = Config{Unwind: 1 << 30, MaxSteps: 1 << 40, TimeoutMs: 1000, SplitCap: 1, MaxAlloc: 1 << 26}
 	p.baseHeap = map[ObjID]Value{}
 	st := p.newState(ex)
+	st.concreteClock = true // package initialisers see a fixed time of day
 	// materialise the few runtime-provided globals that package inits read
 	if g := p.byPath["os"].Var("Args"); g != nil {
 		sl := st.makeSlice(StrVal{}, 1, 1)
